@@ -4,7 +4,8 @@
 # seeded/<id>/meta.json (detected_by) and seeded/RESULTS.md.
 cd /verif
 : > seeded/RESULTS.md.tmp
-for d in seeded/C*/; do
+run_one() {
+  d=$1
   id=$(basename $d)
   out=$(./tools/try_mutant.sh $d/patch.diff 2>&1)
   fired=$(echo "$out" | grep '^FIRED:' | sed 's/FIRED://')
@@ -18,5 +19,13 @@ json.dump(m,open(d+"/meta.json","w"),indent=1)
 PY
   echo "| $id | ${fired:-MISSED} | $rules |" >> seeded/RESULTS.md.tmp
   echo "$id: ${fired:-MISSED}"
+}
+N=0
+for d in seeded/C*/; do
+  run_one $d &
+  N=$((N+1))
+  if [ $((N % 6)) -eq 0 ]; then wait; fi
 done
+wait
+sort -o seeded/RESULTS.md.tmp seeded/RESULTS.md.tmp
 { echo "| mutant | checks that fire | rules |"; echo "|---|---|---|"; cat seeded/RESULTS.md.tmp; } > seeded/RESULTS.md; rm seeded/RESULTS.md.tmp
